@@ -231,7 +231,7 @@ func kaScenario(id, K int, interval time.Duration, count int, kind string) strin
 		window = "never-closed"
 	} else if elapsed < d-200*time.Millisecond {
 		window = fmt.Sprintf("early(%dms)", elapsed.Milliseconds())
-	} else if elapsed > d+1500*time.Millisecond {
+	} else if elapsed > d+4*time.Second { // generous: an overloaded machine notices the expiry late
 		window = fmt.Sprintf("late(%dms)", elapsed.Milliseconds())
 	}
 	will := 0
